@@ -236,6 +236,124 @@ type selector struct {
 	// JoinDepth: how many times the path from the root enters the "other" side of a vector-to-vector binary
 	// operation (the right-hand side; the left-hand side for group_right). Minimum over occurrences.
 	JoinDepth int
+	// Protected: every occurrence lies inside an operand of the form `X or vector(N)` (possibly under an
+	// aggregation), the documented way of saying "this metric may be missing": no verdict is demanded for it.
+	Protected bool
+	// HiddenBySibling: (classification only, mirrors pint's flattening of joins into one list per source) every
+	// occurrence sits in a join list that also contains an always-returning fallback coming from ANOTHER operand.
+	HiddenBySibling bool
+}
+
+func stripParens(n parser.Node) parser.Node {
+	for {
+		p, ok := n.(*parser.ParenExpr)
+		if !ok {
+			return n
+		}
+		n = p.Expr
+	}
+}
+
+func isFallback(n parser.Node) bool {
+	c, ok := stripParens(n).(*parser.Call)
+	return ok && c.Func != nil && c.Func.Name == "vector"
+}
+
+// markProtected flags the vector selectors under an `or` one of whose branches is vector(N).
+func markProtected(node parser.Node, prot bool, out map[*parser.VectorSelector]bool) {
+	switch n := node.(type) {
+	case *parser.VectorSelector:
+		out[n] = prot
+		return
+	case *parser.BinaryExpr:
+		if n.Op == parser.LOR && (isFallback(n.LHS) || isFallback(n.RHS)) {
+			prot = true
+		}
+	}
+	for _, ch := range parser.Children(node) {
+		markProtected(ch, prot, out)
+	}
+}
+
+// flatSource mirrors how pint models an expression: alternatives (`or`) become separate sources, the other
+// operand of a vector-to-vector operation is appended to each source's join list.
+type flatSource struct {
+	sel    *parser.VectorSelector
+	always bool
+	joins  []*flatSource
+}
+
+func flatten(node parser.Node) []*flatSource {
+	switch n := stripParens(node).(type) {
+	case *parser.VectorSelector:
+		return []*flatSource{{sel: n}}
+	case *parser.MatrixSelector:
+		return flatten(n.VectorSelector)
+	case *parser.Call:
+		if n.Func != nil && n.Func.Name == "vector" {
+			return []*flatSource{{always: true}}
+		}
+		for _, a := range n.Args {
+			if t := a.Type(); t == parser.ValueTypeVector || t == parser.ValueTypeMatrix {
+				return flatten(a)
+			}
+		}
+		return nil
+	case *parser.AggregateExpr:
+		return flatten(n.Expr)
+	case *parser.UnaryExpr:
+		return flatten(n.Expr)
+	case *parser.SubqueryExpr:
+		return flatten(n.Expr)
+	case *parser.BinaryExpr:
+		lv, rv := n.LHS.Type() == parser.ValueTypeVector, n.RHS.Type() == parser.ValueTypeVector
+		switch {
+		case lv && rv && n.Op == parser.LOR:
+			return append(flatten(n.LHS), flatten(n.RHS)...)
+		case lv && rv:
+			prim, other := flatten(n.LHS), flatten(n.RHS)
+			if n.VectorMatching != nil && n.VectorMatching.Card == parser.CardOneToMany {
+				prim, other = other, prim
+			}
+			for _, p := range prim {
+				p.joins = append(p.joins, other...)
+			}
+			return prim
+		case lv:
+			return flatten(n.LHS)
+		case rv:
+			return flatten(n.RHS)
+		}
+	}
+	return nil
+}
+
+// hiddenBySibling marks selectors that sit (at any depth) in a join list which directly contains a fallback.
+func hiddenBySibling(srcs []*flatSource, out map[*parser.VectorSelector]bool) {
+	var markAll func(l []*flatSource)
+	markAll = func(l []*flatSource) {
+		for _, j := range l {
+			if j.sel != nil {
+				out[j.sel] = true
+			}
+			markAll(j.joins)
+		}
+	}
+	var walk func(l []*flatSource)
+	walk = func(l []*flatSource) {
+		for _, s := range l {
+			fb := false
+			for _, j := range s.joins {
+				fb = fb || j.always
+			}
+			if fb {
+				markAll(s.joins)
+			} else {
+				walk(s.joins)
+			}
+		}
+	}
+	walk(srcs)
 }
 
 // joinDepths maps every vector selector node to its join depth.
@@ -272,6 +390,10 @@ func selectorsOf(expr string) ([]selector, error) {
 	var out []selector
 	depths := map[*parser.VectorSelector]int{}
 	joinDepths(node, 0, depths)
+	prot := map[*parser.VectorSelector]bool{}
+	markProtected(node, false, prot)
+	hidden := map[*parser.VectorSelector]bool{}
+	hiddenBySibling(flatten(node), hidden)
 	parser.Inspect(node, func(n parser.Node, _ []parser.Node) error {
 		vs, ok := n.(*parser.VectorSelector)
 		if !ok {
@@ -293,10 +415,12 @@ func selectorsOf(expr string) ([]selector, error) {
 			if out[i].Text == txt {
 				out[i].Ranges = append(out[i].Ranges, rng)
 				out[i].JoinDepth = min(out[i].JoinDepth, depths[vs])
+				out[i].Protected = out[i].Protected && prot[vs]
+				out[i].HiddenBySibling = out[i].HiddenBySibling && hidden[vs]
 				return nil
 			}
 		}
-		out = append(out, selector{Text: txt, Metric: metric, Ranges: [][2]int{rng}, Match: vs.LabelMatchers, JoinDepth: depths[vs]})
+		out = append(out, selector{Text: txt, Metric: metric, Ranges: [][2]int{rng}, Match: vs.LabelMatchers, JoinDepth: depths[vs], Protected: prot[vs], HiddenBySibling: hidden[vs]})
 		return nil
 	})
 	return out, nil
@@ -557,7 +681,7 @@ func check(c Case) (out outcome, err error) {
 			}
 		}
 		// (2) completeness
-		if s.Metric != "" && e0[s.Metric] && !c.produced(s.Metric) && c.exemption(s, covered) == "" {
+		if s.Metric != "" && !s.Protected && e0[s.Metric] && !c.produced(s.Metric) && c.exemption(s, covered) == "" {
 			found := false
 			for _, p := range out.Problems {
 				if p.Severity == "Bug" && p.Summary != "invalid comment" && overlaps(p, s) {
@@ -633,6 +757,8 @@ func alignmentZone(db *promsrv.DB, now time.Time, lookback time.Duration) map[st
 //	"nested-join-selector-not-checked": the selector sits two or more join levels deep (`a * (b + c)`: c).
 //	"comment-first-matcher-only": a disable/snooze comment covers the selector under a first-matcher-only
 //	   comparison but not under the documented all-matchers rule.
+//	"fallback-hides-sibling-join": the selector is not wrapped in `or vector(N)` itself, but another operand joined
+//	   to the same source is (`a + (b or vector(1)) + c`: c; `a * ((b or vector(1)) + c)`: c).
 func explanations(c Case, out outcome, s selector) (classes []string) {
 	if out.InZone[s.Metric] {
 		classes = append(classes, "samples-just-before-lookback-window")
@@ -642,6 +768,9 @@ func explanations(c Case, out outcome, s selector) (classes []string) {
 	}
 	if c.exemption(s, pintCovers) != "" {
 		classes = append(classes, "comment-first-matcher-only")
+	}
+	if s.HiddenBySibling && !s.Protected {
+		classes = append(classes, "fallback-hides-sibling-join")
 	}
 	return classes
 }
@@ -757,6 +886,16 @@ func genExpr(t *rapid.T) (string, []selSpec) {
 		s := genSelector(t, fmt.Sprintf("s%d", i))
 		sels = append(sels, s)
 		ops = append(ops, wrap(t, fmt.Sprintf("w%d", i), s.String(), true))
+	}
+	// at most ONE operand carries an always-returning fallback: `(X or vector(N))`, sometimes under an aggregation.
+	// Its selectors are not demanded by clause (2) (selector.Protected); every other operand's still are.
+	if fb := rapid.IntRange(-2*n, n-1).Draw(t, "fallback"); fb >= 0 {
+		v := rapid.SampledFrom([]string{"0", "1"}).Draw(t, "fallback.value")
+		if rapid.IntRange(0, 3).Draw(t, "fallback.agg") == 0 {
+			ops[fb] = "sum(" + ops[fb] + " or vector(" + v + "))"
+		} else {
+			ops[fb] = "(" + ops[fb] + " or vector(" + v + "))"
+		}
 	}
 	expr := ops[0]
 	for i := 1; i < n; i++ {
@@ -977,16 +1116,66 @@ func classify(c Case) (class string, nontrivial bool, err error) {
 	if len(c.Comments) > 0 || len(c.IgnoreMetrics) > 0 {
 		ex = "exemptions"
 	}
-	if len(c.Others) > 0 {
-		ex += "+rules"
+	// fallback shape: none / all selectors protected / some protected (and whether an unprotected one shares a
+	// join list with the fallback)
+	nprot, nhidden := 0, 0
+	for _, s := range sels {
+		if s.Protected {
+			nprot++
+		} else if s.HiddenBySibling {
+			nhidden++
+		}
 	}
-	return fmt.Sprintf("%s|%s", strings.Join(ps, "+"), ex), len(sels) >= 2 && len(pats) >= 2, nil
+	fb := "nofallback"
+	switch {
+	case nprot == 0:
+	case nprot == len(sels):
+		fb = "fallback-all"
+	case nhidden > 0:
+		fb = "fallback-one-side+sibling"
+	default:
+		fb = "fallback-one-side"
+	}
+	return fmt.Sprintf("%s|%s|%s", strings.Join(ps, "+"), ex, fb), len(sels) >= 2 && len(pats) >= 2, nil
 }
 
 // ---------------------------------------------------------------------------
 // Properties
 
-func TestPropSeries(t *testing.T) {
+func anyProtected(sels []selector) bool {
+	for _, s := range sels {
+		if s.Protected {
+			return true
+		}
+	}
+	return false
+}
+
+// siblingShape reports whether the case has an unprotected selector that shares a join list with a fallback
+// operand (class "fallback-hides-sibling-join").
+func siblingShape(c Case) bool {
+	sels, err := selectorsOf(c.Expr)
+	if err != nil {
+		return false
+	}
+	for _, s := range sels {
+		if s.HiddenBySibling && !s.Protected {
+			return true
+		}
+	}
+	return false
+}
+
+// TestPropSeries is the main property. Shapes of the class "fallback-hides-sibling-join" are generated but excluded
+// from it (and counted) unless C16_SIBLING_FALLBACK=1 or the class is listed as a known finding (then failures inside
+// the class are routed to the listing); TestPropSeriesSiblingFallback runs exactly those shapes.
+func TestPropSeries(t *testing.T) { propSeries(t, "main") }
+
+// TestPropSeriesSiblingFallback: only the shapes where a fallback operand has an unprotected sibling in the same
+// join list, e.g. `a + (b or vector(1)) + c` (c must still get a verdict).
+func TestPropSeriesSiblingFallback(t *testing.T) { propSeries(t, "sibling") }
+
+func propSeries(t *testing.T, mode string) {
 	rec := vstat.New(t, prop)
 	known := vstat.KnownClasses(prop)
 	for _, k := range strings.Split(os.Getenv("C16_TREAT_AS_KNOWN"), ",") { // development aid: look behind a finding
@@ -1001,6 +1190,15 @@ func TestPropSeries(t *testing.T) {
 			rt.Fatalf("generator bug: %v: %s", err, c.Expr)
 		}
 		c.Class = class
+		_, listed := known["fallback-hides-sibling-join"]
+		switch sib := siblingShape(c); {
+		case mode == "sibling" && !sib:
+			return // not this stage's shape (not counted)
+		case mode == "main" && sib && !listed && os.Getenv("C16_SIBLING_FALLBACK") != "1":
+			rec.Case("excluded:fallback-hides-sibling-join", false, "", nil)
+			rec.Count("excluded_fallback_hides_sibling_join", 1)
+			return
+		}
 		out, err := check(c)
 		if errors.Is(err, errSkip) {
 			rec.Case("skipped", false, "", nil)
@@ -1014,10 +1212,15 @@ func TestPropSeries(t *testing.T) {
 		rec.Count("server_requests", int64(len(out.Log)))
 		for _, s := range out.Selectors {
 			switch {
+			case s.Protected:
+				rec.Count("selectors_protected_by_fallback", 1)
 			case out.PresentNow[s.Text]:
 				rec.Count("selectors_present_now", 1)
 			case out.NoSamples[s.Metric] && !c.produced(s.Metric) && c.exemption(s, covered) == "":
 				rec.Count("selectors_must_be_reported", 1)
+				if len(out.Selectors) > 1 && anyProtected(out.Selectors) {
+					rec.Count("selectors_must_be_reported_next_to_a_fallback_operand", 1)
+				}
 				if out.InZone[s.Metric] {
 					rec.Count("selectors_must_be_reported_with_samples_in_alignment_zone", 1)
 				}
